@@ -149,7 +149,8 @@ def pstateName : Template.PState → String
 def runTPL (toks : List String) : String :=
   match toks with
   | [fxs, cps] =>
-    let fx : Template.PFix := { f9 := fxs.toList.contains 'f', f10 := fxs.toList.contains 'g' }
+    let fx : Template.PFix := if fxs = "FX=current" then Template.PFix.current else
+      { f9 := (fxs.drop 3).toString.toList.contains 'f', f10 := (fxs.drop 3).toString.toList.contains 'g' }
     let cs := if cps = "-" then [] else (cps.splitOn ",").filterMap (fun t => t.toNat?.map Char.ofNat)
     match Template.parse fx cs with
     | .ok _ => "ok"
@@ -188,7 +189,8 @@ def runLOCKS (toks : List String) : String :=
 def runSTYLE (rest : String) : String :=
   match rest.splitOn ";" with
   | hdr :: ops =>
-    let fx : StyleBuilder.SFix := { f12 := hdr.toList.contains 'i', f13 := hdr.toList.contains 'j' }
+    let fx : StyleBuilder.SFix := if hdr.trimAscii.toString = "FX=current" then StyleBuilder.SFix.current else
+      { f12 := hdr.toList.contains 'i', f13 := hdr.toList.contains 'j' }
     let parse (s : String) : Option StyleBuilder.BuildOp :=
       match (s.trimAscii.toString.splitOn " ").filter (· ≠ "") with
       | ["tc", n] => n.toNat?.map .tickChars
@@ -210,6 +212,10 @@ def runFMT (toks : List String) : String :=
   | ["fdur", n] => match n.toNat? with | some k => String.ofList (Format.formattedDuration k) | none => "bad-op"
   | ["hdur", n] => match n.toNat? with | some k => String.ofList (Format.humanDuration k false) | none => "bad-op"
   | ["hdura", n] => match n.toNat? with | some k => String.ofList (Format.humanDuration k true) | none => "bad-op"
+  | ["fcount", bits, prec] => match bits.toNat?, prec.toNat? with
+    | some b, some p => String.ofList (Format.humanFloatCount b p) | _, _ => "bad-op"
+  | ["bytes", kind, n] => match n.toNat? with
+    | some k => String.ofList (Format.humanBytes k (kind != "decimal")) | none => "bad-op"
   | _ => "bad-op"
 
 /-- `TAB ; op ; op …` with `tw n`, `style`, `msg cps`, `prefix cps`; the style's template is
